@@ -1,4 +1,5 @@
 import Driver.Sexp
+import Plenc.Alloc
 import Plenc.Spec.Format
 import Plenc.World
 import Plenc.Alias
@@ -458,6 +459,10 @@ def runOp (s : Sexp) : String :=
   | .list (.atom "jconc" :: _) => "unsupported"
   | .list (.atom "regintern" :: _) => "unsupported"
   | .list (.atom "bqptr" :: _) => "unsupported"
+  | .list [.atom "entriespresent", .atom d, .atom m] =>
+      (match parseHex d, m.toNat? with
+       | some b, some mx => s!"ok {entriesPresent b mx}"
+       | _, _ => "bad-op")
   | .list [.atom "entryorder"] => "unsupported"
   | .list [.atom "reginterntag"] => "unsupported"
   | .list [.atom "regmapkind"] => "unsupported"   -- inputs nested deeper than the cut of a recursive type
